@@ -17,7 +17,8 @@ type abstraction struct {
 }
 
 type target struct {
-	File string // file (relative to the repo root) that must contain the declaration
+	Pkg  string // package directory relative to the repo root, "" for the root package
+	File string // file (in that directory) that must contain the declaration
 	Recv string // receiver type name without '*', "" for plain functions
 	Name string // Go name
 	Coq  string // name of the generated definition
@@ -25,6 +26,13 @@ type target struct {
 	// expressions makes the translator fail) and the listed expressions become parameters,
 	// placed before the ordinary parameters in this order.
 	Abstract []abstraction
+	// Group: 0 = coq/Gen/GoArith.v (the L0 arithmetic of Core/Arith.v), 1 = coq/Gen/GoArith2.v
+	// (integer logic restated by the other models). A function may only call functions of its own
+	// or an earlier group.
+	Group int
+	// Drop: names of parameters that are dropped like an abstracted receiver (slices, capnp
+	// structs, ...): they may only be mentioned inside the Abstract expressions.
+	Drop []string
 	// CASLoop: the body must have the shape
 	//   [calls of the form x.y.Do(...)]; for { curr := atomic.LoadUint64(&R); S...; if atomic.CompareAndSwapUint64(&R, curr, new) { return e } }
 	// and the translated function is the pure step  (curr, params) -> (new, e).
@@ -86,6 +94,31 @@ var targets = []target{
 		Abstract: []abstraction{{Expr: "p.seg == nil", Param: "seg_nil", Type: "bool"}, {Expr: "p.off", Param: "p_off", Type: "address"}, {Expr: "p.size", Param: "p_size", Type: "ObjectSize"}}},
 	// ---- message.go: the pure step of canRead's compare-and-swap loop
 	{File: "message.go", Recv: "Message", Name: "canRead", Coq: "go_canRead_step", CASLoop: true},
+
+	// ================= group 1 (coq/Gen/GoArith2.v): integer logic restated by the other models
+	// ---- message.go (Core/Builder.v, Frame/Frame.v)
+	{Group: 1, File: "address.go", Recv: "", Name: "maxAllocSize", Coq: "go_maxAllocSize"},
+	{Group: 1, File: "message.go", Recv: "", Name: "nextAlloc", Coq: "go_nextAlloc"},
+	{Group: 1, File: "message.go", Recv: "", Name: "hasCapacity", Coq: "go_hasCapacity", Drop: []string{"b"},
+		Abstract: []abstraction{{Expr: "cap(b)", Param: "cap_b", Type: "int", NonNeg: true}, {Expr: "len(b)", Param: "len_b", Type: "int", NonNeg: true}}},
+	{Group: 1, File: "message.go", Recv: "", Name: "streamHeaderSize", Coq: "go_streamHeaderSize"},
+	{Group: 1, File: "message.go", Recv: "streamHeader", Name: "segmentSize", Coq: "go_segmentSize",
+		Abstract: []abstraction{{Expr: "binary.LittleEndian.Uint32(h.b[4+i*4:])", Param: "word", Type: "uint32"}}},
+	// ---- internal/strquote (Text/Strquote.v)
+	{Group: 1, Pkg: "internal/strquote", File: "strquote.go", Recv: "", Name: "needsEscape", Coq: "go_needsEscape"},
+	{Group: 1, Pkg: "internal/strquote", File: "strquote.go", Recv: "", Name: "hexDigit", Coq: "go_hexDigit"},
+	// ---- internal/packed
+	{Group: 1, Pkg: "internal/packed", File: "packed.go", Recv: "", Name: "min", Coq: "go_packed_min"},
+	// ---- pogs (Pogs/PogsM.v)
+	{Group: 1, Pkg: "pogs", File: "insert.go", Recv: "", Name: "isFieldInBounds", Coq: "go_isFieldInBounds", Drop: []string{"t"},
+		Abstract: []abstraction{{Expr: "t.Which()", Param: "which", Type: "schema.Type_Which"}}},
+	// ---- capnpc-go (Layout/Layout.v)
+	{Group: 1, Pkg: "capnpc-go", File: "templateparams.go", Recv: "structUintFieldParams", Name: "Offset", Coq: "go_gen_Offset",
+		Abstract: []abstraction{{Expr: "p.Field.Slot().Offset()", Param: "slot_off", Type: "uint32"}, {Expr: "p.Bits", Param: "bits", Type: "uint"}}},
+	{Group: 1, Pkg: "capnpc-go", File: "capnpc-go.go", Recv: "", Name: "intbits", Coq: "go_intbits"},
+	{Group: 1, Pkg: "capnpc-go", File: "capnpc-go.go", Recv: "", Name: "intFieldDefaultMask", Coq: "go_intFieldDefaultMask", Drop: []string{"v"},
+		Abstract: []abstraction{{Expr: "v.IsValid()", Param: "valid", Type: "bool"}, {Expr: "v.Which()", Param: "which", Type: "schema.Value_Which"},
+			{Expr: "intValue(v)", Param: "ival", Type: "int64"}}},
 }
 
 // structs maps the Go struct types that may occur in target functions to the Coq record that
